@@ -467,6 +467,129 @@ pub fn composed_requests(ctx: &Ctx) -> Report {
     par_cases(ctx, "composed_requests", n, ctx.secs(20, 400), |i, rng, rep| run_composed_case(i, rng, rep, false))
 }
 
+// ---------------- modifiers and cloned handles ----------------
+
+/// Modifiers belong to the handle they were set on and to its next operation: a clone taken while
+/// controls / a timeout / search options are pending starts without them, and the original still
+/// applies them to its own next operation.
+fn run_clone_case(i: u64, rng: &mut Rng, rep: &mut Report, verbose: bool) {
+    let ctrls = { let mut c = gen::gen_req_controls(rng); if c.is_empty() { c.push(Ctl { oid: b"1.2.3.4.77".to_vec(), crit: true, val: None }); } c };
+    let set_controls = rng.bool();
+    let set_timeout = rng.bool();
+    let set_opts = rng.bool() || (!set_controls && !set_timeout);
+    let opts = (1 + rng.below(3) as u8, true, 1 + rng.below(500) as i32, 1 + rng.below(500) as i32);
+    let clone_does_search = rng.bool();
+    let tok = i * 10;
+    let rt = runtime(rng.next());
+    let ctrls2 = ctrls.clone();
+    let (clone_out, orig_out, log) = rt.block_on(async move {
+        let c = connect();
+        let mut ldap = c.ldap;
+        let mut server = c.server;
+        let srv = tokio::spawn(async move {
+            let tx = server.tx();
+            while let Some(w) = server.request().await {
+                if let Ok(m) = &w.msg {
+                    let b = ok_reply(m);
+                    // every reply takes 300 ms: an operation that inherited the 100 ms timeout fails
+                    let tx = tx.clone();
+                    tokio::spawn(async move {
+                        tokio::time::sleep(Duration::from_millis(300)).await;
+                        tx.send(&b);
+                    });
+                }
+            }
+            server.log
+        });
+        if set_controls {
+            ldap.with_controls(world::raw_controls(&ctrls2));
+        }
+        if set_timeout {
+            ldap.with_timeout(Duration::from_millis(100));
+        }
+        if set_opts {
+            ldap.with_search_options(world::search_options(opts));
+        }
+        let mut cl = ldap.clone();
+        let clone_out = if clone_does_search {
+            match world::watchdog(world::Caught::new(cl.search(&format!("op={}", tok + 1), ldap3::Scope::Base, "(a=b)", vec!["x"]))).await {
+                Ok(Ok(Ok(_))) => "Ok".to_string(),
+                Ok(Ok(Err(e))) => format!("Err({})", world::err_class(&e)),
+                Ok(Err(p)) => format!("Panic({})", p.site()),
+                Err(()) => "Hung".into(),
+            }
+        } else {
+            world::watchdog(invoke(&mut cl, &Call::Delete { dn: format!("op={}", tok + 1) })).await.unwrap_or(Outcome::Hung).class()
+        };
+        // the original's own next operation: a search, so that all three kinds of modifiers show
+        let orig_out = match world::watchdog(world::Caught::new(ldap.search(&format!("op={}", tok + 2), ldap3::Scope::Base, "(a=b)", vec!["x"]))).await {
+            Ok(Ok(Ok(_))) => "Ok".to_string(),
+            Ok(Ok(Err(e))) => format!("Err({})", world::err_class(&e)),
+            Ok(Err(p)) => format!("Panic({})", p.site()),
+            Err(()) => "Hung".into(),
+        };
+        tokio::time::sleep(Duration::from_secs(5)).await;
+        drop(ldap);
+        drop(cl);
+        let log = srv.await.unwrap_or_default();
+        let _ = c.driver.await;
+        (clone_out, orig_out, log)
+    });
+    let replay = json!({"lane":"cloned_handles","case":i});
+    let find = |t: u64| log.iter().filter_map(|w| w.msg.as_ref().ok()).find(|m| m.op.token_field().and_then(gen::token_of) == Some(t));
+    let set_desc = format!("set on the original before clone(): controls {} timeout {} search options {}", set_controls, set_timeout, set_opts);
+    // the clone's operation: nothing inherited
+    if !clone_out.starts_with("Ok") {
+        rep.violation(if clone_out.contains("Timeout") { "C02:modifier-leak:timeout:into-a-cloned-handle".to_string() } else { format!("C02:call-failed:on-a-cloned-handle:{}", clone_out) }, format!("{}; operation on the clone: {}", set_desc, clone_out), replay.clone());
+    }
+    match find(tok + 1) {
+        None => rep.violation("C02:wire-message-count", "the clone's request never reached the wire".to_string(), replay.clone()),
+        Some(m) => {
+            if m.controls.is_some() {
+                rep.violation("C02:modifier-leak:controls:into-a-cloned-handle", format!("{}; the clone's request carries {}", set_desc, trunc(&m.controls)), replay.clone());
+            }
+            if let Req::Search { deref, size, time, types_only, .. } = &m.op {
+                if (*deref, *size, *time, *types_only) != (0, 0, 0, false) {
+                    rep.violation("C02:modifier-leak:search-options:into-a-cloned-handle", format!("{}; the clone's search went out with deref {} size {} time {} typesOnly {}", set_desc, deref, size, time, types_only), replay.clone());
+                }
+            }
+        }
+    }
+    // the original's operation: exactly what was set
+    match find(tok + 2) {
+        None => rep.violation("C02:wire-message-count", "the original's request never reached the wire".to_string(), replay.clone()),
+        Some(m) => {
+            let want_ctrls = if set_controls { Some(ctrls.clone()) } else { None };
+            if m.controls != want_ctrls {
+                rep.violation("C02:modifier-lost:controls:after-clone", format!("{}; the original's request carries {}", set_desc, trunc(&m.controls)), replay.clone());
+            }
+            if let Req::Search { deref, size, time, types_only, .. } = &m.op {
+                let want = if set_opts { (opts.0 as i64, opts.3 as i64, opts.2 as i64, opts.1) } else { (0, 0, 0, false) };
+                if (*deref, *size, *time, *types_only) != want {
+                    rep.violation("C02:modifier-lost:search-options:after-clone", format!("{}; the original's search went out with deref {} size {} time {} typesOnly {} expected {:?}", set_desc, deref, size, time, types_only, want), replay.clone());
+                }
+            }
+        }
+    }
+    let want_orig = if set_timeout { "Err(Timeout)" } else { "Ok" };
+    if orig_out != want_orig {
+        rep.violation("C02:modifier-lost:timeout:after-clone", format!("{}; the original's search (reply after 300 ms): {} expected {}", set_desc, orig_out, want_orig), replay.clone());
+    }
+    if verbose {
+        println!("{} -> clone {} original {}", set_desc, clone_out, orig_out);
+    }
+    rep.count("clone_cases", 1);
+    if i < 2 {
+        rep.sample(json!({"lane":"cloned_handles","case":i,"set":set_desc,"clone":clone_out,"original":orig_out}));
+    }
+    rep.case(Some(fnv(format!("{}{}{}{}{:?}", set_controls, set_timeout, set_opts, clone_does_search, ctrls).as_bytes())));
+}
+
+pub fn cloned_handles(ctx: &Ctx) -> Report {
+    let n = ctx.n(10_000, 5_000_000);
+    par_cases(ctx, "cloned_handles", n, ctx.secs(15, 300), |i, rng, rep| run_clone_case(i, rng, rep, false))
+}
+
 // ---------------- modifiers ----------------
 
 #[derive(Clone, Debug)]
